@@ -47,6 +47,7 @@ Mon0 == [ np     |-> 0,       \* probes created so far
           gt     |-> <<>>,    \* virtual time of every timeline entry
           ht     |-> <<>>,    \* handle -> virtual time of the subscription
           pat    |-> <<>>,    \* probe -> virtual time of each of its notifications
+          runT   |-> <<>>,    \* virtual times at which the executor ran to idle ("runall")
           g      |-> <<>>,    \* global timeline <<a, t, v>> of the notifications sent into the hot inputs
           unsubd |-> <<>>,    \* handle -> unsubscribe() has returned (or it was torn down by its composite)
           closed |-> <<>>,    \* handle -> is_closed() has answered true
@@ -99,6 +100,8 @@ LogOne(m, e, C) ==
             ELSE IF rc = 1 /\ e.v[1] = "g" THEN
               LET k == GetI(m5.ngrp, p) + 1 IN
               [m5 EXCEPT !.np = @ + 1, !.ngrp = SetAt(@, p, k, 0), !.gp = Append(@, <<m5.np + 1, p, k>>)]
+            ELSE IF rc = 5 /\ ~GetB(m5.pfired, p) THEN      \* the callback sent another item into subject 1
+              [m5 EXCEPT !.g = Append(@, <<1, "N", I(W(e.v) + 10)>>), !.pfired = SetAt(@, p, TRUE, FALSE)]
             ELSE IF (rc = 2 /\ ~GetB(m5.pfired, p)) \/ rc = 3 THEN
               LET mh == NewHandle(m5, m5.hroot[h]) IN
               [mh EXCEPT !.np = @ + 1, !.ph = SetAt(@, m5.np + 1, mh.nh, 0), !.pfired = SetAt(@, p, TRUE, FALSE)]
@@ -187,6 +190,47 @@ C07Check(m, o, C) ==
                 ELSE IF op = "delay" /\ ~anyorder THEN at[i] >= srcT(i) + d
                 ELSE TRUE
 
+(* --- C08: time and async sources emit exactly what and when they promise --- *)
+TimeSources == {"interval", "timer", "from_future", "from_stream"}
+C08Check(m, o) ==
+  \A p \in 1..m.np :
+     LET h == GetI(m.ph, p) IN
+     (h > 0 /\ m.hroot[h] > 0 /\ Op(m.hroot[h]) \in TimeSources) =>
+       LET x == m.hroot[h]
+           op == Op(x)
+           got == GetS(m.plog, p)
+           gotN == ItemsOf(got)
+           at == GetS(m.pat, p)
+           t0 == m.ht[h]
+           live == GetI(m.hend, h) = 0
+           ranAt(t) == \E i \in 1..Len(m.runT) : m.runT[i] = t
+       IN
+       CASE op = "interval" ->
+              LET per == PA(x)
+                  d0 == IF PB(x) >= 0 THEN PB(x) ELSE per       \* first tick: at the given instant / one period after subscription
+                  due(i) == IF i = 1 THEN t0 + d0 ELSE at[i - 1] + per IN
+              /\ TermOf(got) = ""
+              /\ \A i \in 1..Len(gotN) :
+                    /\ gotN[i] = I(i - 1)                      \* consecutive integers from 0
+                    /\ at[i] >= due(i)                         \* never early
+                    /\ (ranAt(due(i)) /\ (PB(x) < 0 \/ ranAt(t0))) => at[i] = due(i)      \* on time when the executor is
+              (* a tick that is due and was given the chance to fire has fired *)
+              /\ (live /\ ranAt(due(Len(gotN) + 1)) /\ (PB(x) < 0 \/ ranAt(t0))) => m.now < due(Len(gotN) + 1)
+         [] op = "timer" ->
+              /\ IsPrefixSeq(got, <<<<"N", PV(x)>>, <<"C", U>>>>)
+              /\ (got # <<>> => at[1] >= t0 + PA(x))
+              /\ (live /\ o.live = 0) => Len(got) = 2
+         [] op = "from_future" ->
+              LET scr == Sel(m.g, PA(x) + 400)
+                  want == IF scr = <<>> THEN <<>> ELSE IF scr[1][1] = "E" THEN <<scr[1]>> ELSE <<<<"N", scr[1][2]>>, <<"C", U>>>> IN
+              /\ IsPrefixSeq(got, want)
+              /\ (live /\ o.live = 0) => got = want
+         [] op = "from_stream" ->
+              LET want == MsgsOf(OfMsgs(Sel(m.g, PA(x) + 300), <<>>)) IN
+              /\ IsPrefixSeq(got, want)
+              /\ (live /\ o.live = 0) => got = want
+         [] OTHER -> TRUE
+
 (* the AST index of the share / publish operator in the chain below x (0 if none) *)
 RECURSIVE ShareIn(_)
 ShareIn(x) == IF x = 0 THEN 0
@@ -216,6 +260,9 @@ MonStep(m0, step, C) ==
           [] s.k = "mnew" ->
                LET mh == NewHandle(m, -1) IN [mh EXCEPT !.rh = Append(@, mh.nh)]      \* root -1: a bare composite
           [] s.k = "adv" -> [m EXCEPT !.now = @ + s.a]
+          [] s.k = "runall" -> [m EXCEPT !.runT = Append(@, m.now)]
+          [] s.k = "spush" -> [m EXCEPT !.g = Append(@, <<s.a + 300, s.t, s.v>>)]       \* scripted streams: own id range
+          [] s.k = "fresolve" -> [m EXCEPT !.g = Append(@, <<s.a + 400, s.t, s.v>>)]    \* scripted futures
           [] s.k = "emit" -> [m EXCEPT !.g = Append(@, <<s.a, s.t, s.v>>)]
           [] s.k = "emitc" -> [m EXCEPT !.g = Append(@, <<s.a + 100, s.t, s.v>>)]     \* `create` inputs: own id range
           [] s.k = "sunsub" -> [m EXCEPT !.g = Append(@, <<s.a, "X", U>>)]
@@ -279,7 +326,8 @@ MonStep(m0, step, C) ==
       r9 == Flag(r8, "F13" \notin KF /\ s.k \in {"emit", "emitc"} /\ o.fault = "" /\ allLeft
                      /\ o.cnt[CntTap] > m.lastcnt[CntTap], "C11", checks)
       r10 == Flag(r9, "C07" \in checks /\ o.fault = "" /\ ~C07Check([r9 EXCEPT !.gt = Pad(@, Len(r9.g), m.now)], o, C), "C07", checks)
-  IN [r10 EXCEPT !.lastcnt = o.cnt, !.gt = Pad(@, Len(r10.g), m.now)]
+      r11 == Flag(r10, "C08" \in checks /\ o.fault = "" /\ ~C08Check(r10, o), "C08", checks)
+  IN [r11 EXCEPT !.lastcnt = o.cnt, !.gt = Pad(@, Len(r11.g), m.now)]
 
 RECURSIVE MonRun(_, _, _)
 (* all property ids violated somewhere along a behaviour *)
